@@ -77,6 +77,9 @@ class MnemonicUtils:
 
         Returns:
             bytes: Bytes chunk
+
+        Raises:
+            ValueError: If a word is not found or the words do not encode a 4-byte chunk
         """
         n = words_list.Length()
 
@@ -88,9 +91,9 @@ class MnemonicUtils:
         # Get back the bytes chunk
         int_chunk = word1_idx + (n * ((word2_idx - word1_idx) % n)) + (n * n * ((word3_idx - word2_idx) % n))
 
-        if IntegerUtils.GetBytesNumber(int_chunk) > 3:
-            return IntegerUtils.ToBytes(int_chunk, endianness=endianness)
-        # The chunk shall be at least 4-byte long
+        # The chunk shall be exactly 4-byte long: word triples encoding a larger value are not valid
+        if IntegerUtils.GetBytesNumber(int_chunk) > 4:
+            raise ValueError(f"Invalid mnemonic words ({word1}, {word2}, {word3})")
         return IntegerUtils.ToBytes(int_chunk, bytes_num=4, endianness=endianness)
 
 
